@@ -94,9 +94,6 @@ RowBase(tk, re, ce, st)   == Wt(Co(tk, re, ce), Md("sel", "own"), st)
 ColBase(tk, re, ce, st)   == Wt(Co(tk, re, ce), Md("own", "sel"), st)
 TableBase(tk, re, ce, st) == Wt(Co(tk, re, ce), Md("own", "own"), st)
 
-\* the weighted statistic of the response ("n" for an unweighted response)
-WS == IF Weighted THEN "w" ELSE "n"
-
 NoEl == [pos |-> {}, neg |-> {}, item |-> 0, ins |-> 0]
 TableEls == IF ND = 3 THEN BaseEls(1) ELSE << NoEl >>
 NParts   == Len(TableEls)
